@@ -313,6 +313,103 @@ def gen_seeded(rng, count):
         yield dict(unit='seeded', kind=kind, seed=seed, votes=votes, n=n, tape=list(t.tape), hist=rng.randint(0, 10 ** 6))
 
 
+
+# ================================================================ (a3') seeded Hare transferer under foreign use of the generator
+def _hare_case(rng):
+    """ranked profile rich in shared ranks with odd bundle sizes (so that the remainder of a split must be drawn)"""
+    m = rng.randint(3, 5)
+    ids = list(range(1, m + 1))
+    votes = []
+    for _ in range(rng.randint(2, 6)):
+        perm = ids[:]
+        rng.shuffle(perm)
+        perm = perm[:rng.randint(2, m)]
+        b, i = [], 0
+        while i < len(perm):
+            if rng.random() < 0.45 and i + 1 < len(perm):
+                k = rng.randint(2, min(3, len(perm) - i))
+                b.append(sorted(perm[i:i + k]))
+                i += k
+            else:
+                b.append(perm[i])
+                i += 1
+        votes.append([b, rng.choice([1, 3, 5, 7, 9, 11, rng.randint(1, 30)])])
+    return dict(unit='sweep', kind='seeded-hare', votes=votes, n=rng.randint(1, 3), seed=rng.randint(0, 9),
+                quota=rng.choice(['droop', 'droop', 'hare', None]), perturb=[rng.randint(0, 10 ** 6) for _ in range(3)],
+                form=rng.choice(['selector', 'selector', 'distributor', 'transfer']))
+
+
+def _hare_votes(c):
+    out = {}
+    for b, w in c['votes']:
+        key = tuple(frozenset(cname(x) for x in r) if isinstance(r, list) else cname(r) for r in b)
+        out[key] = out.get(key, 0) + w
+    return out
+
+
+def _perturb(k):
+    """a foreign user of the process-wide generator: reseed it and draw a few numbers"""
+    random.seed(k)
+    for _ in range(k % 5):
+        random.random()
+
+
+def run_seeded_hare(c):
+    """-> list of canonical answers of the SAME question put under different states of the process-wide generator, by fresh and shared objects"""
+    import votelib.evaluate.sequential as seq
+    import votelib.component.transfer as tr
+    votes = _hare_votes(c)
+
+    def make():
+        t = tr.Hare(seed=c['seed'])
+        if c['form'] == 'transfer':
+            return t
+        d = seq.TransferableVoteDistributor(transferer=t, quota_function=c['quota'])
+        return seq.TransferableVoteSelector(d) if c['form'] == 'selector' else d
+
+    def ask(obj):
+        if c['form'] == 'transfer':
+            cands = sorted({x for b in votes for r in b for x in (r if isinstance(r, frozenset) else [r])})
+            alloc = {None: dict(votes)}
+            alloc.update({x: {} for x in cands})
+            r = common.call_impl(lambda: obj.transfer(alloc, [None]), 5)
+            if r[0] != 'ok':
+                return r
+            return ('ok', sorted((str(k), sorted((sweep.cstr(b), str(w)) for b, w in v.items())) for k, v in r[1].items()))
+        r = common.call_impl(lambda: obj.evaluate(votes, c['n']), 5)
+        if r[0] != 'ok':
+            return r
+        return ('ok', sweep.cstr(r[1]))
+    answers = []
+    shared = make()
+    for k in c['perturb']:
+        _perturb(k)
+        answers.append(('fresh', k, ask(make())))
+        _perturb(k + 1)
+        answers.append(('shared', k, ask(shared)))
+    return answers
+
+
+def check_seeded_hare(ctx, c):
+    ctx.evaluations += 1
+    st = random.getstate()
+    try:
+        answers = run_seeded_hare(c)
+    finally:
+        random.setstate(st)
+    outs = [a[2] for a in answers]
+    if any(o == ('err', common.E['TIMEOUT']) for o in outs):
+        return
+    ctx.dist['seeded-hare:' + c['form']] += 1
+    if outs[0][0] == 'ok':
+        ctx.nontrivial.add(common.case_hash(c))
+    if any(o != outs[0] for o in outs):
+        i = next(i for i, o in enumerate(outs) if o != outs[0])
+        ctx.violations.append(dict(stream='seeded-hare', case=c, impl=str(answers[i])[:400], model=str(answers[0])[:400],
+                                   why='Hare(seed=%s) does not repeat its choice when the process-wide generator was used in between: '
+                                       '%s object after random.seed(%s) answers differently from the first call' % (c['seed'], answers[i][0], answers[i][1])))
+
+
 # ================================================================ (a4) multistage over the store
 def _nsx(d, depth):
     if depth == 1:
@@ -518,11 +615,15 @@ def explore(ctx, widen=1):
     ctx.differential('borda-seq', gen_borda(ctx.rng, ctx.n(500, 5000) * widen), model_line, impl, **kw)
     ctx.differential('seeded', list(gen_seeded(ctx.rng, ctx.n(400, 6000) * widen)), model_line, impl, **kw)
     ctx.differential('multistage', gen_ms(ctx.rng, ctx.n(400, 6000) * widen), model_line, impl, **kw)
+    for _ in range(ctx.n(250, 3000) * widen):
+        check_seeded_hare(ctx, _hare_case(ctx.rng))
     run_sweep(ctx, ctx.n(10, 60) * (2 if widen > 1 else 1), first_seed=ctx.seed * 1000)
     check_module_state(ctx, before)
 
 
 def replay_sweep(ctx, case):
+    if case.get('kind') == 'seeded-hare':
+        return check_seeded_hare(ctx, case)
     ctx.evaluations += 1
     if case.get('kind') == 'fresh-process':
         want = sweep.run_case(case['target'], case['seed'])['after']
